@@ -80,6 +80,53 @@ impl MetricItem {
     }
 }
 
+#[cfg(sentinel_verif)]
+#[doc(hidden)]
+impl MetricItem {
+    #[allow(clippy::too_many_arguments)]
+    pub fn verif_new(
+        resource: String,
+        resource_type: ResourceType,
+        timestamp: u64,
+        pass_qps: u64,
+        block_qps: u64,
+        complete_qps: u64,
+        error_qps: u64,
+        avg_rt: u64,
+        occupied_pass_qps: u64,
+        concurrency: u32,
+    ) -> Self {
+        MetricItem {
+            resource,
+            resource_type,
+            timestamp,
+            pass_qps,
+            block_qps,
+            complete_qps,
+            error_qps,
+            avg_rt,
+            occupied_pass_qps,
+            concurrency,
+        }
+    }
+
+    #[allow(clippy::type_complexity)]
+    pub fn verif_fields(&self) -> (String, u8, u64, u64, u64, u64, u64, u64, u64, u32) {
+        (
+            self.resource.clone(),
+            self.resource_type as u8,
+            self.timestamp,
+            self.pass_qps,
+            self.block_qps,
+            self.complete_qps,
+            self.error_qps,
+            self.avg_rt,
+            self.occupied_pass_qps,
+            self.concurrency,
+        )
+    }
+}
+
 pub trait MetricItemRetriever: Send + Sync {
     fn metrics_on_condition(&self, predicate: &TimePredicate) -> Vec<MetricItem>;
 }
